@@ -66,8 +66,8 @@ def _norm_fn(tree: ast.Module, qual: str) -> str | None:
 _AXIS_UNFIXED = "time_points = np.linspace(0, protocol.index[-1].total_seconds(), len(protocol) * time_points_per_step)"
 
 
-def extract_facts() -> dict[str, str]:
-    facts = {
+def extract_facts() -> dict[str, Any]:
+    facts: dict[str, Any] = {
         "copies": "false",
         "update_shape": "false",
         "pool_shape": "false",
@@ -75,6 +75,10 @@ def extract_facts() -> dict[str, str]:
         "sim_shape": "false",
         "workers_shape": "false",
         "protocol_axis": "PhUnknown",
+        "tc_axis": "TcUnknown",
+        "ptc_axis": "PtcUnknown",
+        "dups": "DupUnknown",
+        "entry_points": [],
     }
     trees: dict[str, ast.Module] = {}
     try:
@@ -104,26 +108,63 @@ def extract_facts() -> dict[str, str]:
     # parallel.py
     if same("parallel.py::_load_or_run") and same("parallel.py::parallelise"):
         facts["pool_shape"] = "true"
-    # containers and the scan / mc entry points (no timeout passed, keys, raw_index)
-    if all(
+    # containers and the scan / mc entry points (no timeout passed, keys, raw_index); a dict-keyed entry point
+    # may start with the index test `_require_unique_index(<its table>)` (helper of the recorded shape, imported by mc.py)
+    helper_ok = (
+        _norm_fn(trees["scan.py"], "_require_unique_index") == SHAPES["scan.py::_require_unique_index"]
+        and any(
+            isinstance(n, ast.ImportFrom) and n.module == "mxlpy.scan" and any(a.name == "_require_unique_index" and a.asname is None for a in n.names)
+            for n in trees["mc.py"].body
+        )
+    )
+    entries_ok = True
+    checks: dict[str, bool] = {}
+    for f, qual, table, _epn in ENTRY_POINTS:
+        body = _norm_fn(trees[f], qual)
+        lines = body.splitlines() if body is not None else []
+        chk = bool(lines) and lines[0] == f"_require_unique_index({table})" and helper_ok
+        if chk:
+            lines = lines[1:]
+        checks[f"{f}::{qual}"] = chk
+        if "\n".join(lines) != SHAPES[f"{f}::{qual}"]:
+            entries_ok = False
+    if entries_ok and all(
         same(k)
         for k in SHAPES
         if k.split("::")[1]
         in (
-            "steady_state", "time_course", "protocol", "protocol_time_course", "scan_steady_state",
             "_parameter_scan_worker", "SteadyStateScan.variables", "SteadyStateScan.fluxes",
             "TimeCourseScan.variables", "TimeCourseScan.fluxes", "ProtocolScan.variables", "ProtocolScan.fluxes",
         )
     ):
         facts["containers"] = "true"
+    dict_keyed = [f"{f}::{q}" for f, q, _t, _n in ENTRY_POINTS if q != "steady_state"]
+    if entries_ok and not checks["scan.py::steady_state"] and not checks["mc.py::steady_state"]:
+        if all(checks[k] for k in dict_keyed):
+            facts["dups"] = "DupRefuse"
+        elif not any(checks[k] for k in dict_keyed):
+            facts["dups"] = "DupCollapse"
+    facts["entry_points"] = [_entry_point(trees[f], qual, table, epn, checks[f"{f}::{qual}"]) for f, qual, table, epn in ENTRY_POINTS]
     if all(same(k) for k in SHAPES if k.startswith("simulation.py::")):
         facts["sim_shape"] = "true"
     # workers
     pw = _norm_fn(trees["scan.py"], "_protocol_worker")
     exp_pw = SHAPES["scan.py::_protocol_worker"]
-    workers_ok = all(
-        same(f"scan.py::{w}") for w in ("_steady_state_worker", "_time_course_worker", "_protocol_time_course_worker")
-    )
+    workers_ok = same("scan.py::_steady_state_worker")
+    tcw = _norm_fn(trees["scan.py"], "_time_course_worker")
+    if tcw == SHAPES["scan.py::_time_course_worker"]:
+        facts["tc_axis"] = "TcRequested"
+    elif tcw == SHAPES["scan.py::_time_course_worker#with_start"]:
+        facts["tc_axis"] = "TcWithStart"
+    else:
+        workers_ok = False
+    ptcw = _norm_fn(trees["scan.py"], "_protocol_time_course_worker")
+    if ptcw == SHAPES["scan.py::_protocol_time_course_worker"]:
+        facts["ptc_axis"] = "PtcRequested"
+    elif ptcw == SHAPES["scan.py::_protocol_time_course_worker#joined"]:
+        facts["ptc_axis"] = "PtcJoined"
+    else:
+        workers_ok = False
     if pw is not None:
         exp_lines_pw = exp_pw.splitlines()
         # expected = 4 lines try/except, 2 axis lines, 1 return
@@ -143,14 +184,73 @@ def extract_facts() -> dict[str, str]:
     return facts
 
 
-def gen() -> dict[str, str]:
+# (file, function, name of its table argument, constructor of ScanModel.ep_name)
+ENTRY_POINTS = (
+    ("scan.py", "steady_state", "to_scan", "ScanSteadyState"),
+    ("scan.py", "time_course", "to_scan", "ScanTimeCourse"),
+    ("scan.py", "protocol", "to_scan", "ScanProtocol"),
+    ("scan.py", "protocol_time_course", "to_scan", "ScanProtocolTimeCourse"),
+    ("mc.py", "steady_state", "mc_to_scan", "McSteadyState"),
+    ("mc.py", "time_course", "mc_to_scan", "McTimeCourse"),
+    ("mc.py", "protocol", "mc_to_scan", "McProtocol"),
+    ("mc.py", "protocol_time_course", "mc_to_scan", "McProtocolTimeCourse"),
+    ("mc.py", "scan_steady_state", "mc_to_scan", "McScanSteadyState"),
+)
+_WORKER_NAMES = {
+    "_steady_state_worker": "WkSteadyState", "_time_course_worker": "WkTimeCourse", "_protocol_worker": "WkProtocol",
+    "_protocol_time_course_worker": "WkProtocolTimeCourse", "_parameter_scan_worker": "WkParameterScan",
+}
+
+
+def _entry_point(tree: ast.Module, qual: str, table: str, epn: str, checks: bool) -> str:
+    """One row of the entry-point table, read structurally from the function's AST (independent of the shape
+    comparison): default of `worker`, how `res` ends up in the container, how the pool is chosen.
+    Anything unrecognised yields a row that differs from the expected one (fail-closed)."""
+    fn = next((n for n in tree.body if isinstance(n, ast.FunctionDef) and n.name == qual), None)
+    bad = f"mkEP {epn} WkParameterScan CList ParByFlag true"  # no expected row looks like this
+    if fn is None:
+        return bad
+    worker = None
+    for a, dflt in zip(fn.args.kwonlyargs, fn.args.kw_defaults):
+        if a.arg == "worker" and isinstance(dflt, ast.Name):
+            worker = _WORKER_NAMES.get(dflt.id)
+    calls = [n for n in ast.walk(fn) if isinstance(n, ast.Call) and isinstance(n.func, ast.Name) and n.func.id == "parallelise"]
+    if worker is None or len(calls) != 1:
+        return bad
+    kws = {k.arg: ast.unparse(k.value) for k in calls[0].keywords}
+    if kws.get("inputs") != f"list({table}.iterrows())":
+        return bad
+    if kws.get("parallel") == "parallel" and "max_workers" not in kws:
+        par = "ParByFlag"
+    elif kws.get("max_workers") == "max_workers" and "parallel" not in kws:
+        par = "ParMaxWorkers"
+    else:
+        return bad
+    src = ast.unparse(fn)
+    n_list = src.count("raw_results=[i[1] for i in res]")
+    n_dict = src.count("raw_results=dict(res)")
+    n_nested = src.count("{k: v.variables.T for k, v in res}") + src.count("{k: v.fluxes.T for k, v in res}")
+    if (n_list, n_dict, n_nested) == (1, 0, 0):
+        cont = "CList"
+    elif (n_list, n_dict, n_nested) == (0, 1, 0):
+        cont = "CDict"
+    elif (n_list, n_dict, n_nested) == (0, 0, 2):
+        cont = "CDictOfScans"
+    else:
+        return bad
+    return f"mkEP {epn} {worker} {cont} {par} {'true' if checks else 'false'}"
+
+
+def gen() -> dict[str, Any]:
     f = extract_facts()
+    eps = ";\n    ".join(f["entry_points"])
     text = (
         "(* REGENERATED from src/mxlpy/{scan,mc,parallel,simulation}.py by harness/c09.py; do not edit.\n"
-        "   An unrecognised shape yields false / PhUnknown, which breaks C09_facts_pinned. *)\n"
-        "From Scan Require Import ScanModel.\n"
+        "   An unrecognised shape yields false / *Unknown, which breaks C09_facts_pinned / C09_entry_points_pinned. *)\n"
+        "From Coq Require Import List.\nFrom Scan Require Import ScanModel.\nImport ListNotations.\n"
         f"Definition gen_scan_facts : scan_facts := mkScanFacts {f['copies']} {f['update_shape']} {f['pool_shape']} "
-        f"{f['containers']} {f['sim_shape']} {f['workers_shape']} {f['protocol_axis']}.\n"
+        f"{f['containers']} {f['sim_shape']} {f['workers_shape']} {f['protocol_axis']} {f['tc_axis']} {f['ptc_axis']} {f['dups']}.\n"
+        f"Definition gen_entry_points : list entry_point :=\n  [ {eps} ].\n"
     )
     common.write_if_changed(common.area_dir(AREA) / "GenScanFacts.v", text)
     return f
@@ -384,6 +484,10 @@ def run_scan(case: dict, mode: list, api: str = "scan", integrator: str = "euler
             v, f = _with_timeout(lambda: (res.variables, res.fluxes))
     except _Timeout:
         return {"raises": "Timeout"}
+    except ValueError as e:
+        if "duplicate index labels" in str(e):
+            return {"refused": str(e)[:200]}  # the entry point's visible refusal of the table
+        return {"raises": type(e).__name__, "msg": str(e)[:200]}
     except Exception as e:  # noqa: BLE001
         return {"raises": type(e).__name__, "msg": str(e)[:200]}
     if case["kind"] == "tc":
@@ -538,6 +642,17 @@ def oracle_row(spec: dict, cols: list[int], row: list[int], kind: str, tps: list
     return ("failed", [0])
 
 
+_ACTIVE: set[str] | None = None
+
+
+def active_findings() -> set[str]:
+    """ids of the findings currently RECORDED for C09 (known_findings.json): only those excuse a shape"""
+    global _ACTIVE  # noqa: PLW0603
+    if _ACTIVE is None:
+        _ACTIVE = {f["id"] for f in common.load_known_findings("C09")}
+    return _ACTIVE
+
+
 def judge(case: dict, got: dict) -> tuple[str | None, str | None]:
     """(violation text | None, known-finding id | None) for one scan result."""
     spec, cols, kind, tps = case["spec"], case["cols"], case["kind"], case["tps"]
@@ -545,8 +660,15 @@ def judge(case: dict, got: dict) -> tuple[str | None, str | None]:
     var_names = {sname(v[0]) for v in spec["vars"]}
     labels = case["labels"]
     dup = len(set(labels)) != len(labels)
+    if "refused" in got:
+        # a visible refusal is right exactly for dict-keyed scans of a table with equal labels
+        if kind == "tc" and dup:
+            return None, None
+        return f"the scan refused the table ({got['refused']}) although its index labels are pairwise different or not used as keys", None
     if any(e[0] in ("crash", "viewcrash") for e in exp):
         if "raises" in got and got["raises"] == "ZeroDivisionError":
+            if any(e[0] == "crash" for e in exp) and "zerodiv-at-t0-crashes-scan" not in active_findings():
+                return "a row whose model cannot be evaluated at t=0 makes the whole scan raise ZeroDivisionError", None
             return None, "zerodiv-at-t0-crashes-scan" if any(e[0] == "crash" for e in exp) else None
         if "raises" in got:
             return f"scan raised {got['raises']}: {got.get('msg', '')}", None
@@ -555,9 +677,11 @@ def judge(case: dict, got: dict) -> tuple[str | None, str | None]:
         return f"scan raised {got['raises']}: {got.get('msg', '')} although every row can be simulated or fails cleanly", None
     blocks = got["blocks"]
     if kind == "tc" and dup:
-        # dict-keyed container: rows with equal labels collapse (known finding); nothing else is judged
+        # dict-keyed container: rows with equal labels collapse; nothing else is judged
         if len(blocks) != len(labels):
-            return None, "duplicate-index-labels"
+            if "duplicate-index-labels" in active_findings():
+                return None, "duplicate-index-labels"
+            return f"{len(blocks)} result blocks for {len(labels)} rows: rows with equal index labels {labels} were silently lost", None
         return None, None
     if len(blocks) != len(case["rows"]):
         return f"{len(blocks)} result blocks for {len(case['rows'])} rows", None
@@ -578,7 +702,7 @@ def judge(case: dict, got: dict) -> tuple[str | None, str | None]:
                 if bad:
                     return f"row {i} fails but its block is not a NaN placeholder: {bad} at t={t}", None
             if kind == "tc" and times != axis:
-                if tps[0] != 0 and times == list(tps):
+                if tps[0] != 0 and times == list(tps) and "tc-placeholder-misses-t0" in active_findings():
                     known = "tc-placeholder-misses-t0"
                 else:
                     return f"row {i} fails: placeholder time axis {times}, a successful run has {axis}", None
@@ -630,6 +754,8 @@ def coq_val(x) -> str:
 
 
 def coq_obs(case: dict, got: dict) -> str:
+    if "refused" in got:
+        return "ObsRefuse"
     if "raises" in got:
         return "ObsRaise"
     spec = case["spec"]
@@ -688,7 +814,7 @@ def order_is_declaration_order(spec: dict) -> bool:
 
 
 def exact_ok(got: dict) -> bool:
-    if "raises" in got:
+    if "raises" in got or "refused" in got:
         return True
     for _lab, rows in got["blocks"]:
         for t, dv, df_ in rows:
@@ -878,6 +1004,14 @@ STALE_WITNESS = {
 }
 
 
+_SQ_SPEC = {"vars": [[10, ["P", 0]]], "pars": [[20, ["P", 1]]], "der": [], "rxn": [[40, 5, [10], [[10, 1]]]]}
+# a failing row next to a successful one, time points not starting at 0 (placeholder axis vs successful axis)
+TC_T0_WITNESS = {"spec": _SQ_SPEC, "kind": "tc", "tps": [1, 2], "cols": [10], "rows": [[0], [100]], "labels": [0, 1], "flavour": "blow"}
+TC_T0_WITNESS2 = {"spec": _SQ_SPEC, "kind": "tc", "tps": [2, 3, 5], "cols": [10], "rows": [[100], [0], [1]], "labels": [4, 2, 9], "flavour": "blow"}
+# equal index labels (dict-keyed containers: silent row loss vs visible refusal)
+DUP_WITNESS = {"spec": _SQ_SPEC, "kind": "tc", "tps": [0, 1], "cols": [10], "rows": [[0], [1], [0]], "labels": [5, 7, 5], "flavour": "plain"}
+
+
 def check(run: Run) -> None:
     thorough = run.tier == "thorough"
     facts = gen()
@@ -890,12 +1024,21 @@ def check(run: Run) -> None:
         "column), 1-17 rows, default or custom labels x {scan, mc}.{time_course, steady_state} x sequential / parallel "
         "with 1,2,3,16 workers, run with the exact Euler integrator; a case is non-trivial if it has >= 2 rows and at "
         "least one row succeeds; distinct by content.  Plus a bit-for-bit schedule sweep of all four scans and the MC "
-        "variants (incl. nested scan_steady_state) against independent Simulator runs, with the exact integrator and SciPy."
+        "variants (incl. nested scan_steady_state) against independent Simulator runs, with the exact integrator and SciPy.  "
+        "Plus: the protocol-time-course worker on 7-11 (step durations, requested points) combinations (successful vs failing run, "
+        "axis against an independent oracle and against the model), and every dict-keyed entry point (scan/mc time_course, protocol, "
+        "protocol_time_course, mc.scan_steady_state) on a table with equal index labels (all rows or a visible refusal)."
     )
     proofs_ok = run.check_proofs(AREA, PROPS)
     run.assumptions += [
         "Coq 8.16.1 kernel + vm_compute; theorems closed under the global context (no axioms)",
-        "fact extractor harness/c09.py::extract_facts (normalised-AST shapes of the anchored functions, fail-closed; harness/c09_shapes.json)",
+        "fact extractor harness/c09.py::extract_facts (normalised-AST shapes of the anchored functions incl. the two accepted forms of the "
+        "time-course / protocol-time-course workers and of the index test, plus the structurally read entry-point table; fail-closed; "
+        "harness/c09_shapes.json)",
+        "coq/scan/ExpectedFacts.v is a hand-edited switch (expected form of the placeholder axes and of the duplicate-label handling), kept "
+        "consistent with known_findings.d/C09.json by tools/c09_switch.py; the harness excuses a finding's shape only while it is recorded",
+        "pandas Index.join(how='outer') / numpy.union1d (sorted, duplicate-free join of step ends and requested points) enter the "
+        "protocol-time-course axis theorem as a hypothesis (a sorted list); the in-Coq correspondence recomputes the join itself",
         "modelled, not verified: pebble.ProcessPool.map (every task pickled separately = deep copy of the model; results "
         "handed out in input order whatever the completion order), copy.deepcopy, pandas containers (dict / list / concat), "
         "Model evaluation reduced to environment resolution in declaration order (checked per case), the integrator "
@@ -912,6 +1055,9 @@ def check(run: Run) -> None:
     # corpus first: the stale-assignment witness in every mode
     for mode in (["seq"], ["par", 2], ["par", 1]):
         cases.append((STALE_WITNESS, mode, "scan"))
+    for wit in (TC_T0_WITNESS, TC_T0_WITNESS2, DUP_WITNESS):
+        for mode, api in ((["seq"], "scan"), (["par", 2], "scan"), (["par", 3], "mc")):
+            cases.append((wit, mode, api))
     discarded = {"order": 0, "inexact": 0}
     tries = 0
     while len(cases) < n_cases and tries < 5 * n_cases:
@@ -932,6 +1078,7 @@ def check(run: Run) -> None:
     coq_cases: list[str] = []
     case_of: list[int] = []
     n_viol = 0
+    n_viol_by: dict[str, int] = {}
     known_seen: dict[str, int] = {}
     results: list[dict] = []
     for idx, (c, mode, api) in enumerate(cases):
@@ -950,8 +1097,10 @@ def check(run: Run) -> None:
         run.count_case((c, mode, api), nontrivial=len(c["rows"]) >= 2 and "ok" in exp_kinds)
         if known:
             known_seen[known] = known_seen.get(known, 0) + 1
-        if viol and n_viol < 4:
+        vkey = "axis" if viol and "placeholder time axis" in viol else "dups" if viol and "silently lost" in viol else "other"
+        if viol and n_viol_by.get(vkey, 0) < 2 and n_viol < 6:
             n_viol += 1
+            n_viol_by[vkey] = n_viol_by.get(vkey, 0) + 1
             run.violation(f"{api}.{'time_course' if c['kind'] == 'tc' else 'steady_state'} {mode}: {viol}",
                           {"kind": "scan-case", "case": c, "mode": mode, "api": api, "observed": got})
         if not exact_ok(got):
@@ -988,6 +1137,12 @@ def check(run: Run) -> None:
 
     # protocol worker: placeholder axis length vs successful axis length, model vs real code
     _protocol_axes(run, thorough)
+
+    # protocol-time-course worker: placeholder axis vs successful axis, real code vs model vs property
+    _ptc_axes(run, thorough)
+
+    # every dict-keyed entry point on a table with equal index labels: all rows, or a visible refusal
+    _dup_entry_points(run)
 
     # schedule sweep, bit for bit
     _sweep(run, thorough, rng)
@@ -1059,6 +1214,184 @@ def _protocol_axes(run: Run, thorough: bool) -> None:
     run.coverage["protocol_axis_lengths"] = lens
 
 
+DUP_ENTRY_POINTS = ("scan.time_course", "scan.protocol", "scan.protocol_time_course", "mc.time_course", "mc.protocol",
+                    "mc.protocol_time_course", "mc.scan_steady_state")
+
+
+def _dup_entry_point_run(name: str) -> dict:
+    """`name` on a table labelled 0, 1, 0 -> {"refused": msg} | {"blocks": n, "rows": 3} | {"raises": ...}"""
+    import numpy as np
+    import pandas as pd
+
+    from mxlpy import Model, make_protocol, mc, scan
+
+    from harness import c09_fns as F
+    from harness.c09_integ import ExactEuler
+
+    m = Model()
+    m.add_variable("x", 0.0)
+    m.add_parameter("q", 1.0)
+    m.add_parameter("k", 1.0)
+    m.add_reaction("v", fn=F.g_sub, args=["k", "x"], stoichiometry={"x": 1.0})
+    tab = pd.DataFrame({"k": [1.0, 2.0, 3.0]}, index=[0, 1, 0])
+    proto = make_protocol([(1.0, {"q": 1.0})])
+    tps = np.array([0.0, 1.0])
+    kw = {"integrator": ExactEuler}
+    runs = {
+        "scan.time_course": lambda: scan.time_course(m, to_scan=tab, time_points=tps, parallel=False, **kw),
+        "scan.protocol": lambda: scan.protocol(m, to_scan=tab, protocol=proto, time_points_per_step=1, parallel=False, **kw),
+        "scan.protocol_time_course": lambda: scan.protocol_time_course(m, to_scan=tab, protocol=proto, time_points=tps, parallel=False, **kw),
+        "mc.time_course": lambda: mc.time_course(m, mc_to_scan=tab, time_points=tps, max_workers=2, **kw),
+        "mc.protocol": lambda: mc.protocol(m, mc_to_scan=tab, protocol=proto, time_points_per_step=1, max_workers=2, **kw),
+        "mc.protocol_time_course": lambda: mc.protocol_time_course(m, mc_to_scan=tab, protocol=proto, time_points=tps, max_workers=2, **kw),
+        "mc.scan_steady_state": lambda: mc.scan_steady_state(m, to_scan=pd.DataFrame({"q": [1.0]}), mc_to_scan=tab, max_workers=2, **kw),
+    }
+    try:
+        with contextlib.redirect_stderr(io.StringIO()):
+            v = _with_timeout(lambda: runs[name]().variables, 120)
+    except _Timeout:
+        return {"raises": "Timeout"}
+    except ValueError as e:
+        if "duplicate index labels" in str(e):
+            return {"refused": str(e)[:160]}
+        return {"raises": f"ValueError: {e}"[:200]}
+    except Exception as e:  # noqa: BLE001
+        return {"raises": f"{type(e).__name__}: {e}"[:200]}
+    blocks = len(v) if name == "mc.scan_steady_state" else len(v.groupby(level=0, sort=False))
+    return {"blocks": int(blocks), "rows": 3}
+
+
+def _dup_judge(name: str, got: dict) -> tuple[str | None, str | None]:
+    if "refused" in got:
+        return None, None
+    if "raises" in got:
+        return f"{name} on a table with equal index labels raised {got['raises']}", None
+    if got["blocks"] != got["rows"]:
+        if "duplicate-index-labels" in active_findings():
+            return None, "duplicate-index-labels"
+        return f"{name}: {got['blocks']} result blocks for {got['rows']} rows labelled 0, 1, 0: rows were silently lost", None
+    return None, None
+
+
+def _dup_entry_points(run: Run) -> None:
+    outcome = {}
+    for name in DUP_ENTRY_POINTS:
+        got = _dup_entry_point_run(name)
+        run.count_case(("dup-entry", name), nontrivial=True)
+        viol, known = _dup_judge(name, got)
+        outcome[name] = "refused" if "refused" in got else ("known-finding" if known else ("violation" if viol else "all rows"))
+        if viol:
+            run.violation(viol, {"kind": "dup-entry", "entry": name})
+    run.coverage["duplicate_label_entry_points"] = outcome
+
+
+PTC_COMBOS = [
+    # (step durations, requested time points)
+    ([2, 2], [1, 3, 5]),        # first point later than 0, last beyond the protocol
+    ([2, 2], [0, 1, 4]),        # starts at 0, misses the step end 2
+    ([2, 2], [0, 2, 4]),        # exactly the step ends
+    ([3], [1, 2]),              # one step, ends before the protocol does
+    ([1, 2, 3], [2, 4, 5, 6]),
+    ([2, 1], [0, 1, 2, 3]),     # the requested points ARE the axis of a successful run
+    ([4], [0, 4]),
+]
+PTC_COMBOS_THOROUGH = [([1, 1, 1, 1], [0, 3]), ([5, 2], [6, 7, 8, 9]), ([2, 3], [1, 2, 3, 4, 5]), ([1], [0, 1])]
+
+
+def _ptc_worker_axes(durs: list[int], tps: list[int]) -> tuple[list, list]:
+    """time axes of a successful and of a failing run of the real _protocol_time_course_worker"""
+    import numpy as np
+
+    from mxlpy import Model, make_protocol
+    from mxlpy.scan import _protocol_time_course_worker
+
+    from harness import c09_fns as F
+    from harness.c09_integ import ExactEuler
+
+    proto = make_protocol([(float(d), {"q": float(i)}) for i, d in enumerate(durs)])
+
+    def mk(x0: float):
+        m = Model()
+        m.add_variable("x", x0)
+        m.add_parameter("q", 1.0)
+        m.add_reaction("v", fn=F.g_sq, args=["x"], stoichiometry={"x": 1.0})
+        return m
+
+    with contextlib.redirect_stderr(io.StringIO()):
+        ok = _with_timeout(lambda: _protocol_time_course_worker(mk(0.0), proto, np.array(tps, dtype=float), integrator=ExactEuler, y0=None))
+        bad = _with_timeout(lambda: _protocol_time_course_worker(mk(100.0), proto, np.array(tps, dtype=float), integrator=ExactEuler, y0=None))
+        vo, vb = ok.variables, bad.variables
+    if bool(np.isnan(vo.to_numpy()).any()) or not bool(np.isnan(vb.to_numpy()).all()):
+        raise RuntimeError("expected one clean and one NaN result")
+    return [_num(t) for t in vo.index.tolist()], [_num(t) for t in vb.index.tolist()]
+
+
+def _ptc_expected_axis(durs: list[int], tps: list[int]) -> list[int]:
+    """independent oracle: t=0, then every step end and every requested point in (0, end of protocol], ascending"""
+    ends, t = [], 0
+    for d in durs:
+        t += d
+        ends.append(t)
+    return [0, *sorted({p for p in [*ends, *tps] if 0 < p <= ends[-1]})]
+
+
+def _ptc_judge(durs: list[int], tps: list[int], ax_ok: list, ax_bad: list) -> tuple[str | None, str | None]:
+    want = _ptc_expected_axis(durs, tps)
+    if ax_ok != want:
+        return f"protocol-time-course run over steps {durs} with points {tps}: time axis {ax_ok}, expected {want}", None
+    if ax_bad != want:
+        if ax_bad == list(tps) and "tc-placeholder-misses-t0" in active_findings():
+            return None, "tc-placeholder-misses-t0"
+        return (
+            f"protocol-time-course scan, steps {durs}, points {tps}: a failing row's NaN placeholder has time axis {ax_bad}, "
+            f"a successful row has {ax_ok}",
+            None,
+        )
+    return None, None
+
+
+def _ptc_axes(run: Run, thorough: bool) -> None:
+    combos = PTC_COMBOS + (PTC_COMBOS_THOROUGH if thorough else [])
+    obs = []
+    met = 0
+    for durs, tps in combos:
+        try:
+            ax_ok, ax_bad = _ptc_worker_axes(durs, tps)
+        except Exception as e:  # noqa: BLE001
+            run.violation(f"protocol-time-course worker, steps {durs}, points {tps}: {type(e).__name__}: {e}",
+                          {"kind": "ptc-axis", "durs": durs, "tps": tps})
+            continue
+        run.count_case(("ptc-axis", tuple(durs), tuple(tps)), nontrivial=True)
+        viol, known = _ptc_judge(durs, tps, ax_ok, ax_bad)
+        if viol:
+            run.violation(viol, {"kind": "ptc-axis", "durs": durs, "tps": tps})
+        met += known is not None
+        if all(isinstance(t, int) for t in ax_ok + ax_bad):
+            obs.append((durs, tps, ax_ok, ax_bad))
+    zl = lambda l: clist(map(zc, l))  # noqa: E731
+    ends_of = lambda durs: [sum(durs[: i + 1]) for i in range(len(durs))]  # noqa: E731
+    text = (
+        "From Coq Require Import List ZArith.\nFrom MxlBase Require Import ListX.\n"
+        "From Scan Require Import ScanModel GenScanFacts ScanCorr.\nImport ListNotations.\nOpen Scope Z_scope.\n"
+        "Definition obs : list (list Z * list Z * list Z * list Z) := "
+        + clist(f"({zl(ends_of(d))}, {zl(t)}, {zl(a)}, {zl(b)})" for d, t, a, b in obs)
+        + ".\n"
+        "Eval vm_compute in filter_idx (fun o => match o with (ends, tps, a, b) => "
+        "negb (zlist_eqb (fst (ptc_axes gen_scan_facts ends tps)) a && zlist_eqb (snd (ptc_axes gen_scan_facts ends tps)) b) end) obs.\n"
+    )
+    res = common.coq_eval_many(AREA, {"c09_ptc": text}, timeout_s=300)
+    ok, out = res["c09_ptc"]
+    lists = common.parse_eval_list(out) if ok else None
+    if not ok or lists is None or not lists:
+        run.broken_correspondence.append(f"protocol-time-course axis shard did not evaluate: {out[-300:]}")
+    elif lists[-1]:
+        run.broken_correspondence.append(
+            f"protocol-time-course axes: model and implementation disagree on {[obs[j] for j in lists[-1]]}"
+        )
+    run.coverage["ptc_axis_cases"] = len(obs)
+    run.coverage["ptc_axis_known_finding_shapes_met"] = met
+
+
 def _sweep(run: Run, thorough: bool, rng) -> None:
     kinds = ["steady_state", "time_course", "protocol", "protocol_time_course", "mc.steady_state", "mc.time_course",
              "mc.protocol", "mc.scan_steady_state"]
@@ -1117,6 +1450,22 @@ def replay(rep: dict) -> int:
         bad = sweep_compare(r["scan"], got, indep)
         print("oracle:", bad or "property holds on this input")
         return 1 if bad else 0
+    if k == "dup-entry":
+        got = _dup_entry_point_run(r["entry"])
+        viol, known = _dup_judge(r["entry"], got)
+        print("observed:", got)
+        print("oracle:", viol or ("known finding " + known if known else "property holds on this input"))
+        return 1 if viol else 0
+    if k == "ptc-axis":
+        try:
+            ax_ok, ax_bad = _ptc_worker_axes(r["durs"], r["tps"])
+        except Exception as e:  # noqa: BLE001
+            print("oracle:", type(e).__name__, e)
+            return 1
+        viol, known = _ptc_judge(r["durs"], r["tps"], ax_ok, ax_bad)
+        print("observed: successful axis", ax_ok, "placeholder axis", ax_bad)
+        print("oracle:", viol or ("known finding " + known if known else "property holds on this input"))
+        return 1 if viol else 0
     if k == "protocol-axis":
         run = Run("C09", "replay", 0)
         _protocol_axes_single(run, r["n"], r["tpps"])
